@@ -6,7 +6,7 @@
      uniq g         identities unique and IDs unique in rows g *)
 From Coq Require Import List NArith Bool Permutation.
 Import ListNotations.
-Require Import V.C38.Spec V.C38.Rows V.C38.Main V.C38.Theorems.
+Require Import V.C38.Spec V.C38.Clauses V.C38.Rows V.C38.Main V.C38.Theorems V.C38.Tie2.
 Open Scope N_scope.
 
 Theorem C38_spec_delete_removes_target_and_attached_edges :
@@ -79,6 +79,14 @@ Theorem C38_rows_after :
     Permutation (rows g') (map (after_row g o) (filter (keep_row o) (rows g))).
 Proof. exact rows_after. Qed.
 
+(* the executable clauses (codes 10-18) that Check.v evaluates on the IMPLEMENTATION's before/after for a
+   delete step hold on the specification's own output, for every graph that passes the executable
+   well-formedness test (code 2) - the clauses are consequences of the theorems above, machine-checked *)
+Theorem C38_spec_satisfies_executable_clauses :
+  forall g o g', wf_b g = true -> is_delete_op o = true -> spec_apply g o = Some g' ->
+    prop_codes g o (rows g') (g_edges g') = [].
+Proof. exact delete_spec_satisfies_clauses. Qed.
+
 (* non-vacuity: deleting container 1 ("a") whose child "b" collides with the root-level "b":
    the child becomes "b 2", its sibling "c" and grandchild "c.d" are hoisted unchanged, the three
    connections stay attached *)
@@ -102,3 +110,4 @@ Print Assumptions C38_spec_delete_edge_keeps_indices_distinct.
 Print Assumptions C38_spec_delete_attr_only.
 Print Assumptions C38_spec_delete_edge_attr_only.
 Print Assumptions C38_rows_after.
+Print Assumptions C38_spec_satisfies_executable_clauses.
